@@ -27,7 +27,7 @@ type c09Class struct {
 }
 
 var c09Census = map[string]c09Class{
-	"bytecode.goByteCode|go bytecode.GoRoutine":              {"user", "the Ego program's own go statement; excluded by the property"},
+	"bytecode.goByteCode|go bytecode.goRoutine":              {"user", "the Ego program's own go statement; excluded by the property"},
 	"bytecode.Context.RunFromAddress|go closure":             {"per-execution:W1", "signal watcher of one run"},
 	"rest.Exchange|go closure":                               {"per-execution:W1", "progress message while a REST call is in flight"},
 	"services.runChildViaPipe|go closure":                    {"per-execution:W2", "socket exchange with the child of one request"},
